@@ -50,7 +50,7 @@ package core
 //@ func (*Blockchain).AddBlock
 //@ may-panic
 //@ opt frame off
-//@ opt opaque-callees (*Transaction).Hash,(*Pool).Add,(*Pool).ContainsKey
+//@ opt opaque-callees (*Transaction).Hash,(*Pool).Add,(*Pool).ContainsKey,verifyAndPoolTx,storeBlock,addHeaders
 //@ opt stable block.Header.Index, block.Header.StateRootEnabled, block.Header.MerkleRoot, bc.config.StateRootInHeader, bc.config.SkipBlockVerification
 //@ requires bc != nil && block != nil
 //@ call storeBlock requires[index] block.Index == expectedHeight
